@@ -1056,27 +1056,3 @@ Example six_faces_2_3_1 :
   map (fun f => zget 2 (normal f)) (dir_faces 0 (2, 3, 1) 2) = [-1; -1; -1; -1; -1; -1; 1; 1; 1; 1; 1; 1]%Z.
 Proof. vm_compute. repeat split; reflexivity. Qed.
 
-Print Assumptions cell_numbers_enumerate.
-Print Assumptions cell_numbers_bijection.
-Print Assumptions cell_numbers_blocks.
-Print Assumptions face_count.
-Print Assumptions face_count_by_kind.
-Print Assumptions internal_face_owner_neighbor.
-Print Assumptions adjacent_cells_have_face.
-Print Assumptions internal_pairs_NoDup.
-Print Assumptions internal_face_unique.
-Print Assumptions cell_six_faces.
-Print Assumptions cell_number_six_faces.
-Print Assumptions internal_face_nodes.
-Print Assumptions boundary_lower_face_nodes.
-Print Assumptions boundary_upper_face_nodes.
-Print Assumptions boundary_owners_NoDup.
-Print Assumptions face_cp_NoDup.
-Print Assumptions internal_face_orientation.
-Print Assumptions boundary_upper_face_orientation.
-Print Assumptions boundary_lower_face_orientation.
-Print Assumptions patch_faces_perm.
-Print Assumptions patch_faces_key_NoDup.
-Print Assumptions face_cells_in_range.
-Print Assumptions faces_final_assert.
-Print Assumptions faces_2_3_1.
